@@ -24,11 +24,18 @@ def dump(pkg, hooks=False, features=None, no_default=False, cwd=None, tag=None, 
     cmd += ["--", "-Zunpretty=mir", "-C", "debug-assertions=off", "-C", "overflow-checks=on"]
     if hooks: cmd += ["--cfg", GUARD]
     env = {"CARGO_TARGET_DIR": tdir}
-    import subprocess
+    import subprocess, fcntl
     e = dict(ENV); e.update(env)
-    with open(out + ".tmp", "w") as fo:
-        p = subprocess.run(cmd, cwd=cwd or REPO, env=e, stdout=fo, stderr=subprocess.PIPE, text=True)
-    if p.returncode != 0 or os.path.getsize(out + ".tmp") < 100:
-        raise Inconclusive(f"MIR dump of {pkg} failed: {p.stderr[-2000:]}")
-    os.replace(out + ".tmp", out)
+    os.makedirs(tdir, exist_ok=True)
+    with open(tdir + ".lock", "w") as lk:
+        fcntl.flock(lk, fcntl.LOCK_EX)         # two checks running at once must not share a cargo target directory
+        for d in glob.glob(os.path.join(tdir, "debug", ".fingerprint", pkg.replace("-", "_") + "-*")) + \
+                glob.glob(os.path.join(tdir, "debug", ".fingerprint", pkg + "-*")):
+            shutil.rmtree(d, ignore_errors=True)
+        tmp = out + f".tmp{os.getpid()}"
+        with open(tmp, "w") as fo:
+            p = subprocess.run(cmd, cwd=cwd or REPO, env=e, stdout=fo, stderr=subprocess.PIPE, text=True)
+        if p.returncode != 0 or os.path.getsize(tmp) < 100:
+            raise Inconclusive(f"MIR dump of {pkg} failed: {p.stderr[-2000:]}")
+        os.replace(tmp, out)
     return out
